@@ -44,6 +44,7 @@ type actor struct {
 	done   bool   // caller: Call returned; reader: goroutine left startReadAndHandle
 	result string // caller: ok | closed | wfail | other<code>
 	kind   string // caller: echo | hold
+	released bool // hold call whose server handler has been let go: its reply is on the way
 	reread bool   // released from disc.read: a further arrival there is the CAS loop, not parked
 }
 
@@ -210,6 +211,13 @@ func hold(ctx erpc.CallCtx, arg *string) (string, *erpc.Status) {
 }
 
 func (w *world) releaseHeld() {
+	w.mu.Lock()
+	for _, a := range w.actors {
+		if !a.reader && !a.done {
+			a.released = true
+		}
+	}
+	w.mu.Unlock()
 	w.holdMu.Lock()
 	close(w.holdCh)
 	w.holdCh = make(chan struct{})
@@ -547,7 +555,7 @@ func (w *world) settle() map[string]string {
 			waiting := false
 			w.mu.Lock()
 			for _, a := range w.actors {
-				if !a.reader && a.kind == "echo" && pos[a.name] == "await" {
+				if !a.reader && (a.kind == "echo" || a.released) && pos[a.name] == "await" {
 					waiting = true
 				}
 			}
